@@ -287,3 +287,15 @@ def fmt_d(x, width):
     """'{x:{width}d}'.format(...): the number as displayed in a numbered listing (uninterpreted; the same symbol as the model of
     that format spec)."""
     return '{x:{w}d}'.format(x=x, w=width)
+
+
+def _class_name_builder(ts):
+    _smt.CTX.sort('Val')
+    _smt.CTX.fun('py_class_name', ['Val'], 'String')
+    return _smt.CTX.app('py_class_name', *ts)
+
+
+@_native('(Val) -> str', _class_name_builder)
+def class_name(cls):
+    """cls.__name__ of a class held as an opaque value."""
+    return cls.__name__
